@@ -77,7 +77,9 @@ impl<'a> PrettyPrinter<'a> {
             return prefix_doc;
         }
 
-        let import_items_doc = self.convert_import_items(ctx, import_items_nodes);
+        // A comment anywhere in the import (also before the items or inside one of them) pins the order.
+        let can_reorder = !contains_comment(import.to_untyped());
+        let import_items_doc = self.convert_import_items(ctx, import_items_nodes, can_reorder);
         if ends_with_line_comment {
             // The prefix already ends with a line break.
             return prefix_doc + import_items_doc;
@@ -89,11 +91,12 @@ impl<'a> PrettyPrinter<'a> {
         &'a self,
         ctx: Context,
         mut import_items_nodes: Vec<&'a SyntaxNode>,
+        can_reorder: bool,
     ) -> ArenaDoc<'a> {
         // Sort import items if the configuration allows it.
-        // The sorting is only applied if all nodes are not comments and if there are no duplicate names.
+        // The sorting is only applied if the import holds no comments and if there are no duplicate names.
         if self.config.reorder_import_items
-            && import_items_nodes.iter().all(|node| !is_comment_node(node))
+            && can_reorder
             && check_import_name_duplication(&import_items_nodes)
         {
             // Sort import items by their text representation. Blanks are ignored, so that the order does not
@@ -158,6 +161,11 @@ impl<'a> PrettyPrinter<'a> {
             }
         })
     }
+}
+
+/// Whether the node or any of its descendants is a comment.
+fn contains_comment(node: &SyntaxNode) -> bool {
+    is_comment_node(node) || node.children().any(contains_comment)
 }
 
 /// Check for duplicate import names in the given import items nodes.
